@@ -382,7 +382,8 @@ def check_C18(ctx, unit, nbits):
                           key=lambda n: n.loc)
             bad = []
             for n in subs:
-                env = {"__inits__": {d: i for d, i in inits.items() if not RA._reassigned(f, d) and (i.get("bits") or i.strip().get("bits"))}}
+                env = {"__inits__": {d: i for d, i in list(inits.items()) + list(RA.bound_value_params(f).items())
+                                     if not RA._reassigned(f, d) and (i.get("bits") or i.strip().get("bits"))}}
                 keyof = _mk_keyof(f, pid, env)
                 rel = None
                 for cond, truth in flow.facts_at(f, n.id):
@@ -418,7 +419,8 @@ def check_C18(ctx, unit, nbits):
                           key=lambda n: n.loc)
             for n in decs:
                 iv_ = n.children[0].strip()
-                env = {"__inits__": {d: i for d, i in inits.items() if not RA._reassigned(f, d) and (i.get("bits") or i.strip().get("bits"))}}
+                env = {"__inits__": {d: i for d, i in list(inits.items()) + list(RA.bound_value_params(f).items())
+                                     if not RA._reassigned(f, d) and (i.get("bits") or i.strip().get("bits"))}}
                 keyof = _mk_keyof(f, pid, env)
                 facts = flow.facts_at(f, n.id)
                 for cond, truth in facts:
